@@ -56,6 +56,23 @@ EXPLORED, not proved (ctx.explored['history_differential'], oracle = the impleme
   reference (c10_ybig.YRef, integers over the exact values of the floats); when it is >= 1e-40 the identical decode is
   repeated 8–16 times with the global `random` module seeded DIFFERENTLY each time and all answers must agree (note
   'NONDET', key nondeterministic:<decoder>:decode); exactly tied / nearer inputs are decoded once, pinned, as before.
+  OBJECT LIFETIMES (classes 'sweep' and 'lifetime', spec key `life`): every argument object of a call is either KEPT (the
+  caller's long-lived variable: the pool object of all other histories) or a TEMPORARY constructed for that call and
+  released before the next temporary of its role is constructed — `dec.decode(code, s, error_model=Model(b), ...)` in a
+  sweep loop.  A dead temporary's address (its id()) goes to a later object; the executor prefers, among up to 64 candidate
+  constructions, one that lands on the address of a dead temporary of the same role and counts them (hist.life.objects).
+  `gen_sweep_history`: what a parameter-sweep script does — code and decoder kept (round 0; later rounds: random / decoder /
+  code / all temporaries; pattern x family grid over SMWPM rotated planar / rotated toric, planar MPS / RMPS / Y / (C)MWPM,
+  rotated planar MPS / RMPS, colour MPS), the SAME <= 3 model-sensitive syndromes per code and op and the same 2 seeds at
+  every sweep point, error model drawn per call from Y-biases over three decades x other axes x other model classes, eta
+  unset and set.  `gen_lifetime_history`: general histories (all families / subclasses / syndrome classes) with the lifetime
+  of each role drawn per call.  Differences are confirmed / replayed with up to 5 shared runs (address re-use is the
+  allocator's decision).
+  ARGUMENTS (c06_exec.execute): the caller's argument objects are built once per call spec — syndrome, `error`, the LISTS
+  `step_errors` / `step_measurement_errors` of row arrays (as app.run_once_ftp builds them), probabilities — passed again
+  by the immediate repeat, and compared DEEPLY before / after every decode / decode_ftp / generate / run* call (container
+  type and length, identity of the elements, array contents / shape / dtype / writeable flag; repr() and label of the code,
+  decoder and error-model objects): note 'ARG', key mutation:<decoder>:<op>.
 Excluded / pinned (random or stateful by documented design): MPS/RMPS skip-truncate masks (stp is never set: the mask
   comes from an unseeded default_rng()), PlanarYDecoder's random.choice between exactly tied cosets (random.seed pinned
   before every call in both processes; for provably untied inputs it is NOT pinned: see repeats), FileErrorModel (cursor)
@@ -86,7 +103,9 @@ RULE = ('memo: random call histories (<=40 calls, 15 keys, cap in {None,0,1,2,3,
         'history differential (shared objects vs fresh process per call; process-global state monitor; exactly tied '
         'syndromes for all TN decoders / modes; user subclasses interleaved with base classes; decoder parameters and '
         'probabilities at the ends of their domains; identical Y-decodes of provably untied cosets repeated 8-16 times '
-        'under different `random` states): see coverage.explored')
+        'under different `random` states; object lifetimes: kept v. temporary code / decoder / error-model objects along '
+        'parameter sweeps with address re-use; deep before/after comparison of every argument container): see '
+        'coverage.explored')
 
 HERE = os.path.dirname(os.path.abspath(__file__))
 EXEC = os.path.join(os.path.dirname(HERE), 'c06_exec.py')
@@ -780,7 +799,7 @@ def tied_errors(code, em, p, want=4, tries=40):
 SYN_CLASSES = ['random', 'random', 'random', 'zero', 'single', 'single', 'double', 'super', 'super']
 
 
-def gen_syndrome(rng, code, em, op, focus, p=0.1, tie_ok=False):
+def gen_syndrome(rng, code, em, op, focus, p=0.1, tie_ok=False, classes=None, pes=(0.05, 0.1, 0.2, 0.3)):
     """syndrome argument of a decode / decode_ftp spec, by CLASS: random error (as the runs produce), zero, single defect
     (one stabilizer bit where the stabilizers are independent, else the defects of one single-qubit error), two defects,
     a random syndrome containing the focus defect, and — on small codes, for the tensor-network decoders — a syndrome whose
@@ -792,8 +811,8 @@ def gen_syndrome(rng, code, em, op, focus, p=0.1, tie_ok=False):
     e_m = make_em([X.base_name(em[0]), em[1]])
     T = 1 if op == 'decode' else rng.choice([1, 2, 3])
     grng = np.random.default_rng(rng.randrange(2 ** 32))
-    pe = rng.choice([0.05, 0.1, 0.2, 0.3])
-    cls = rng.choice(SYN_CLASSES)
+    pe = rng.choice(list(pes))
+    cls = rng.choice(classes or SYN_CLASSES)
     if op == 'decode' and tie_ok and rng.random() < 0.5:
         cls = 'tied'
     fs, fq, fp = focus
@@ -840,6 +859,7 @@ def gen_syndrome(rng, code, em, op, focus, p=0.1, tie_ok=False):
         out['syn'] = '/'.join(bits(ms[t - 1] ^ ss[t] ^ ms[t]) for t in range(T))
         if not unit.any():
             out['err'] = bits(np.bitwise_xor.reduce(es))
+            out['errs'] = '/'.join(bits(e) for e in es)
         out['T'] = T; out['q'] = q
         out['meas'] = '/'.join(bits(x) for x in ms)
     return out
@@ -1035,6 +1055,121 @@ def gen_y_history(rng, length):
     return specs
 
 
+# ---- OBJECT LIFETIMES: which of the argument objects of a call are long-lived ('kept': the caller's variable) and which are
+# TEMPORARIES constructed in the call expression and dropped after it (`dec.decode(code, s, error_model=Model(b), ...)` in
+# a sweep loop).  A temporary's address — its id() — is handed to later objects, so anything qecsim remembers about an
+# argument by identity (or through a reference that does not keep it alive) is served to ANOTHER object later on.  The
+# sweep histories are what parameter-sweep scripts do: code and decoder kept, the SAME few syndromes / seeds decoded along
+# a sweep over error-model parameters (bias values over three decades, every axis, other model classes) and probabilities.
+
+SWEEP_BIASES = [0.5, 1, 3, 10, 30, 100, 300, 1000]
+LIFE_PATTERNS = ['em-temp', 'em-temp', 'em-temp', 'random', 'random', 'dec-temp', 'code-temp', 'all-temp']
+SWEEP_ROUNDS = ['em-temp', 'random', 'dec-temp', 'em-temp', 'code-temp', 'all-temp', 'random']  # pattern x family grid
+
+
+def sweep_ems(rng, dom):
+    ys = [['BiasedDepolarizingErrorModel', [b, 'Y']] for b in rng.sample(SWEEP_BIASES, 5)]
+    if dom == 'smwpm':  # finite positive derived bias only
+        return ys + [['DepolarizingErrorModel', []], ['BiasedDepolarizingErrorModel', [rng.choice([3, 10]), rng.choice('XZ')]]]
+    return ys[:3] + [['BiasedDepolarizingErrorModel', [b, a]] for b in rng.sample(SWEEP_BIASES, 2) for a in 'XZ'] + \
+        [['BiasedYXErrorModel', [b]] for b in rng.sample(SWEEP_BIASES, 2)] + \
+        [['DepolarizingErrorModel', []], ['BitFlipErrorModel', []], ['PhaseFlipErrorModel', []], ['BitPhaseFlipErrorModel', []]]
+
+
+def sfam_rplanar(rng):
+    codes = [['RotatedPlanarCode', s] for s in rng.sample([[3, 3], [3, 5], [5, 3], [5, 5], [4, 4], [4, 5]], 2)]
+    decs = [['RotatedPlanarSMWPMDecoder', {}], rng.choice([['RotatedPlanarSMWPMDecoder', {'eta': rng.choice([0.5, 10])}],
+                                                            ['RotatedPlanarSMWPMDecoder', {}]])]
+    return codes, decs, 'smwpm'
+
+
+def sfam_rtoric(rng):
+    codes = [['RotatedToricCode', s] for s in rng.sample([[2, 2], [4, 4], [4, 6], [6, 4]], 2)]
+    decs = [['RotatedToricSMWPMDecoder', {}], rng.choice([['RotatedToricSMWPMDecoder', {'itp': True}],
+                                                          ['RotatedToricSMWPMDecoder', {}]])]
+    return codes, decs, 'smwpm'
+
+
+def sfam_planar(rng):
+    codes = [['PlanarCode', s] for s in rng.sample([[2, 2], [3, 3], [3, 4], [4, 4], [2, 4]], 2)]
+    decs = rng.sample([['PlanarMPSDecoder', {'chi': rng.choice([None, 4])}], ['PlanarRMPSDecoder', {'mode': rng.choice('cra')}],
+                       ['PlanarYDecoder', {}], ['PlanarCMWPMDecoder', {}], ['PlanarMWPMDecoder', {}]], 2)
+    return codes, decs, None
+
+
+def sfam_rplanar_tn(rng):
+    codes = [['RotatedPlanarCode', s] for s in rng.sample([[3, 3], [3, 5], [4, 4], [5, 5]], 2)]
+    decs = [['RotatedPlanarMPSDecoder', {'chi': rng.choice([None, 4])}], ['RotatedPlanarRMPSDecoder', {'chi': rng.choice([None, 4])}]]
+    return codes, decs, None
+
+
+def sfam_color(rng):
+    return [['Color666Code', [3]], ['Color666Code', [5]]], [['Color666MPSDecoder', {'chi': rng.choice([None, 4, 8])}]], None
+
+
+SFAMS = [sfam_rplanar, sfam_rplanar, sfam_rtoric, sfam_rtoric, sfam_planar, sfam_rplanar_tn, sfam_color]
+
+
+def draw_life(rng, pattern):
+    if pattern == 'random':
+        return {r: rng.choice(['kept', 'temp']) for r in ('code', 'dec', 'em')}
+    temp = {'em-temp': ['em'], 'dec-temp': ['dec'], 'code-temp': ['code'], 'all-temp': ['code', 'dec', 'em']}[pattern]
+    return {r: ('temp' if r in temp else 'kept') for r in ('code', 'dec', 'em')}
+
+
+def gen_sweep_history(rng, length, k):
+    """one parameter sweep: a station of one family, the same few syndromes (per code and op) and seeds re-used at every
+    sweep point, the error model / probability varying from call to call; object lifetimes by pattern"""
+    codes, decs, dom = SFAMS[k % len(SFAMS)](rng)
+    ems = sweep_ems(rng, dom)
+    ps = rng.sample([0.05, 0.1, 0.2, 0.3], 2)
+    pattern = SWEEP_ROUNDS[(k // len(SFAMS)) % len(SWEEP_ROUNDS)]  # round r: every family under pattern r
+    focus = (rng.randrange(10 ** 6), rng.randrange(10 ** 6), rng.choice('XYZ'))
+    syn_pool, seeds = {}, [rand_seed(rng) for _ in range(2)]
+    specs = []
+    for _ in range(length):
+        if specs and rng.random() < 0.1:
+            spec = json.loads(json.dumps(rng.choice(specs)))
+            spec['mut'] = rng.randrange(2 ** 16); spec['again'] = True
+            specs.append(spec)
+            continue
+        code, dec, em, p = rng.choice(codes), rng.choice(decs), rng.choice(ems), rng.choice(ps)
+        ops = ['decode'] * 6 + ['run_once', 'run', 'generate']
+        if is_ftp(dec):
+            ops += ['decode_ftp', 'decode_ftp', 'decode_ftp', 'run_once_ftp', 'run_ftp']
+        op = rng.choice(ops)
+        spec = {'op': op, 'code': code, 'dec': dec, 'em': em, 'p': p, 'mut': rng.randrange(2 ** 16),
+                'life': draw_life(rng, pattern), 'class': 'sweep', 'life_pattern': pattern}
+        if op in ('decode', 'decode_ftp'):
+            pk = json.dumps([code, op])
+            pool = syn_pool.setdefault(pk, [])
+            if len(pool) < 3:
+                # syndromes of typical-to-heavy errors: the ones whose decoding depends on the assumed noise model
+                g = gen_syndrome(rng, code, ['DepolarizingErrorModel', []], op, focus, p=p,
+                                 classes=['random', 'random', 'random', 'super', 'double'], pes=(0.15, 0.2, 0.3))
+                pool.append(g)
+            spec.update(rng.choice(pool))
+        else:
+            spec['seed'] = rng.choice(seeds)
+            if op in ('run_once_ftp', 'run_ftp'):
+                spec['T'] = rng.choice([1, 2, 3]); spec['q'] = rng.choice([None, 0.0, 0.1])
+            if op in ('run', 'run_ftp'):
+                spec['max_runs'] = rng.choice([1, 2, 3]); spec['max_failures'] = rng.choice([None, None, 1])
+        specs.append(spec)
+    return specs
+
+
+def gen_lifetime_history(rng, length):
+    """a general history (all families, subclasses, syndrome classes) whose calls draw the lifetime of each argument object"""
+    h = gen_history(rng, length)
+    pattern = rng.choice(LIFE_PATTERNS)
+    for sp in h:
+        if not sp.get('again'):
+            sp['life'] = draw_life(rng, pattern)
+        sp['class'] = 'lifetime'; sp['life_pattern'] = pattern
+    return h
+
+
 def spawn(job, hashseed):
     env = dict(os.environ)
     env['PYTHONHASHSEED'] = str(hashseed)
@@ -1068,7 +1203,7 @@ def collect(p, timeout):
 
 
 def strip_err(spec):
-    return {k: v for k, v in spec.items() if k != 'err'}
+    return {k: v for k, v in spec.items() if k not in ('err', 'errs')}
 
 
 def run_job(calls, mode, hashseed, timeout=600):
@@ -1076,6 +1211,25 @@ def run_job(calls, mode, hashseed, timeout=600):
     its own forked process on fresh objects)"""
     r = collect(spawn({'mode': mode, 'calls': calls, 'limit': CALL_LIMIT}, hashseed), timeout)
     return None if r is None else [x['res'] for x in r['results']]
+
+
+LIFE_RETRIES = 5
+
+
+def has_life(h):
+    return any('temp' in (sp.get('life') or {}).values() for sp in h)
+
+
+def run_shared(h, hashseed, fresh_last=None, index=-1):
+    """`h` as one shared history.  Whether a temporary lands on the address of a dead one is decided by CPython's
+    allocator (the executor only prefers such constructions): histories with temporaries are run up to LIFE_RETRIES times,
+    until call `index` differs from `fresh_last`"""
+    sh = None
+    for _ in range(LIFE_RETRIES if has_life(h) and fresh_last is not None else 1):
+        sh = run_job(h, 'shared', hashseed)
+        if sh is None or sh[index] == 'TIMEOUT' or sh[index] != fresh_last:
+            break
+    return sh
 
 
 def confirm(history, i, hs_a, hs_b):
@@ -1098,11 +1252,13 @@ def confirm(history, i, hs_a, hs_b):
     # single predecessor + target, then the whole prefix
     cands = [[history[j], target] for j in range(i - 1, -1, -1)][:12] + [history[:i + 1]]
     for h in cands:
-        sh = run_job(h, 'shared', hs_a)
+        sh = run_shared(h, hs_a, fa[0])
         if sh is None or sh[-1] == 'TIMEOUT':
             continue
         if sh[-1] != fa[0]:
-            wo = run_job([strip_err(s) for s in h], 'shared', hs_a)
+            # (with temporaries the address re-use is up to the allocator: a single agreeing run without the context
+            # would say nothing, so the attribution to the context is not attempted there)
+            wo = None if has_life(h) else run_job([strip_err(s) for s in h], 'shared', hs_a)
             only_code = sh[-1].split(' code=')[0] == fa[0].split(' code=')[0]
             return {'what': ('after the calls made before it in the same process, the code object of the last call publishes '
                              'stabilizers / logical_xs / logical_zs / logicals (digests after `code=`) that differ from '
@@ -1247,6 +1403,9 @@ def part_history(ctx):
     # parameter EXTREMES and identical-call REPEATS (generated after the general histories: their draw is unchanged)
     histories += [gen_extreme_history(rng, rng.choice([10, 14, 18]), k) for k in range(ctx.scale(14, 220))]
     histories += [gen_y_history(rng, rng.choice([10, 14])) for _ in range(ctx.scale(6, 90))]
+    # object LIFETIMES (temporaries v. kept-alive argument objects): parameter sweeps and general histories
+    histories += [gen_sweep_history(rng, rng.choice([16, 20, 24]), k) for k in range(ctx.scale(21, 105))]
+    histories += [gen_lifetime_history(rng, rng.choice([8, 12, 16])) for _ in range(ctx.scale(6, 50))]
     n_hist = len(histories)
     flat = [(h, i) for h in range(n_hist) for i in range(len(histories[h]))]
     n_workers = ctx.scale(3, 5)
@@ -1268,6 +1427,8 @@ def part_history(ctx):
             for h, rh in zip(hc, r['histories']):
                 for i, x in enumerate(rh):
                     shared_res[(h, i)] = x['res']
+                    for ik, iv in (x.get('info') or {}).items():
+                        ctx.hist['hist.life.objects'][ik] += iv
                     for nt in x['notes']:
                         mutated.append((h, i, nt))
         for ch, p in zip(chunks, procs):
@@ -1295,6 +1456,8 @@ def part_history(ctx):
                     ctx.count('hist.extreme.' + pk, pv)
         if spec.get('repeats'):
             ctx.count('hist.y_repeat.p', spec['p'])
+        if spec.get('life'):
+            ctx.count('hist.life', '/'.join('{}:{}'.format(r, spec['life'][r]) for r in ('code', 'dec', 'em')))
         if 'seed' in spec:
             ctx.count('hist.seed', seed_class(spec['seed']))
         ctx.count('hist.result', 'EXC' if res.startswith('EXC') else ('TIMEOUT' if res == 'TIMEOUT' else 'value'))
@@ -1362,7 +1525,9 @@ def part_history(ctx):
                 'history (shared) / every call (fresh) runs in its own forked process; user subclasses of codes / '
                 'decoders / error models are interleaved with their base classes; histories of class extreme (decoder '
                 'parameters / probabilities at the ends of their domains) and y-repeat (identical untied Y-decodes under '
-                'different `random` states)'.format(hs),
+                'different `random` states), sweep / lifetime (argument objects kept v. temporaries whose address is '
+                're-used by later objects); argument containers (lists of per-step arrays) compared deeply around every '
+                'call'.format(hs),
         'wall_s': round(time.time() - t0, 1)}
     ctx.evaluations += compared
 
@@ -1431,8 +1596,8 @@ def replay(ctx, path):
                 r = collect(spawn({'mode': 'shared', 'calls': hist, 'limit': CALL_LIMIT}, hs_a), 600)
                 still = r is not None and any(not nt.startswith(('GLOBAL', 'CACHE-WRITE')) for x in r['results'] for nt in x['notes'])
             else:
-                a = run_job(hist, 'shared', hs_a)
                 b = run_job([strip_err(hist[i])], 'fresh', hs_a)
+                a = run_shared(hist, hs_a, None if b is None else b[0], index=i)
                 still = a is not None and b is not None and a[i] != b[0] and 'TIMEOUT' not in (a[i], b[0])
             print('replay history ({} calls, mode {}) -> {}'.format(len(hist), inp.get('mode'),
                                                                     'still differs' if still else 'agrees'))
